@@ -1,6 +1,11 @@
 import AFModel.Fitness
 import AFProofs.C03
 import AFModel.FloatOps
+import AFModel.SearchTable
+import AFModel.Generated.C04
+import AFModel.LogPrior
+import AFModel.ResumeCheck
+import AFProofs.Lemmas.LogPrior
 
 /-!
 # C04 — the figure of merit handed to a search
@@ -157,5 +162,423 @@ theorem fom_with_model_gate {V : Type} [Inhabited V] (ops : Ops V) (fo : FomOps 
     have hf : limitsOk ops lims v = false := by simpa using hlim
     have hg : gate ops t lims asserts v false = .error .priorLimit := C03.gate_limit_error ops t lims asserts v hl hf
     simp [fitnessCall, hg]
+
+end AF.C04
+
+
+/-! ## every search class: the figure of merit its own fitness object hands to it
+
+`Generated.C04.searchRows` is regenerated from `autofit/non_linear/search/**` before every build
+(`harness/tables_c04.py`); the driver answers "which flags does search X use" from the same table
+(`findRow`), and the harness compares the table with the source and with the fitness objects real
+searches build. The `row_*` theorems hold for *any* row, the `table_*` theorems instantiate them
+over the rows of the present source tree and add what only a concrete table can say: that every
+search's resample value is the designated one. -/
+
+namespace AF.C04
+open AF
+
+/-- **Success, per row.** the instance is built and the likelihood is `ll`: a search of this row
+receives `ll`, plus the prior sum when it works in posterior space, times −2 when it minimises.
+(`FitnessPySwarms` re-checks the *result* for NaN: `hn`.) -/
+theorem row_fom_on_success (fo : FomOps Float) (r : SearchRow) (hist : Bool) (g) (lp) (st : FitSt Float)
+    (v : List Float) (i : Inst Float) (ll : Float) (hg : g v = .ok i)
+    (hn : r.fitnessClass = .pyswarms → fo.isNaN (fo.mulNeg2 (fo.add ll (pySum fo (lp v)))) = false) :
+    (rowCall fo r hist g lp st v (.fin ll)).1 = .value (rowFom fo r ll (pySum fo (lp v))) := by
+  unfold rowCall rowFom SearchRow.posterior SearchRow.minimises
+  cases hc : r.fitnessClass with
+  | plain =>
+    rw [fom_on_success fo (rowCfg r hist) g lp st v i ll hg]
+    cases h1 : r.fomIsLL <;> cases h2 : r.convertChi <;> simp [rowCfg, h1, h2]
+  | pyswarms =>
+    rw [pyswarms_particle_success fo (rowCfg r hist) g lp v i ll hg (hn hc)]
+    simp
+
+/-- **Resample, per row.** a vector outside limits / violating an assertion, the fit exception or
+NaN: the search receives `rowResample` (its resample value; `-2 ×` it for the swarm variant) and
+nothing is recorded. -/
+theorem row_resample_on_failure (fo : FomOps Float) (r : SearchRow) (hist : Bool) (g) (lp) (st : FitSt Float)
+    (v : List Float) (o : Outcome Float)
+    (h : (∃ e, g v = .error e ∧ e ≠ .length) ∨ (∃ i, g v = .ok i ∧ (o = .nan ∨ o = .raisesFit))) :
+    rowCall fo r hist g lp st v o = (.value (rowResample fo r), st) := by
+  unfold rowCall rowResample
+  cases r.fitnessClass with
+  | plain => rw [resample_on_failure fo (rowCfg r hist) g lp st v o h]; rfl
+  | pyswarms => rw [pyswarms_particle_failure fo (rowCfg r hist) g lp v o h]; rfl
+
+/-- the swarm variant lets exactly the same exceptions through as the plain one -/
+theorem pyswarms_raises_iff (fo : FomOps V) (cfg : FitCfg V) (g) (lp) (v : List V) (o : Outcome V) :
+    pyswarmsParticle fo cfg g lp v o = .raises ↔
+      (g v = .error .length ∨ ((∃ i, g v = .ok i) ∧ o = .raisesOther)) := by
+  unfold pyswarmsParticle
+  cases hg : g v with
+  | error e => cases e <;> simp
+  | ok i =>
+    cases o with
+    | fin ll => by_cases hn : fo.isNaN (fo.mulNeg2 (fo.add ll (pySum fo (lp v)))) = true <;> simp [hn]
+    | nan => simp
+    | raisesFit => simp
+    | raisesOther => simp
+
+/-- **No escape, per row.** -/
+theorem row_raises_iff (fo : FomOps Float) (r : SearchRow) (hist : Bool) (g) (lp) (st : FitSt Float)
+    (v : List Float) (o : Outcome Float) :
+    (∃ st', rowCall fo r hist g lp st v o = (.raises, st')) ↔
+      (g v = .error .length ∨ ((∃ i, g v = .ok i) ∧ o = .raisesOther)) := by
+  unfold rowCall
+  cases r.fitnessClass with
+  | plain => exact raises_iff fo (rowCfg r hist) g lp st v o
+  | pyswarms =>
+    rw [← pyswarms_raises_iff fo (rowCfg r hist) g lp v o]
+    constructor
+    · rintro ⟨st', h⟩; exact congrArg Prod.fst h
+    · intro h; exact ⟨st, by rw [h]⟩
+
+/-- a run of a plain row is a run of `Fitness` with the row's flags -/
+theorem rowRun_plain (fo : FomOps Float) (r : SearchRow) (hist : Bool) (g) (lp) (hc : r.fitnessClass = .plain) :
+    ∀ (calls : List (List Float × Outcome Float)) (st : FitSt Float),
+      rowRun fo r hist g lp st calls = runCalls fo (rowCfg r hist) g lp st calls
+  | [], st => by simp [rowRun, runCalls]
+  | (v, o) :: rest, st => by
+    simp only [rowRun, runCalls, rowCall, hc]
+    rw [rowRun_plain fo r hist g lp hc rest]
+
+/-- the swarm variant never touches the history lists -/
+theorem rowRun_pyswarms_state (fo : FomOps Float) (r : SearchRow) (hist : Bool) (g) (lp) (hc : r.fitnessClass = .pyswarms) :
+    ∀ (calls : List (List Float × Outcome Float)) (st : FitSt Float), (rowRun fo r hist g lp st calls).2 = st
+  | [], st => by simp [rowRun]
+  | (v, o) :: rest, st => by
+    simp only [rowRun, rowCall, hc]
+    exact rowRun_pyswarms_state fo r hist g lp hc rest st
+
+/-- **History, per row**, for any interleaving of successful and failing calls: a plain fitness
+object whose `store_history` is on (a literal `True`, or a dynamic argument that evaluated to true)
+holds exactly the successfully evaluated vectors with their likelihoods, in order; every other
+fitness object holds nothing. -/
+theorem row_history_exact (fo : FomOps Float) (r : SearchRow) (hist : Bool) (g) (lp)
+    (calls : List (List Float × Outcome Float)) :
+    (rowRun fo r hist g lp {} calls).2.params =
+        (if r.fitnessClass = .plain ∧ r.storeHistory hist = true then (calls.filter (succeeded g)).map (·.1) else []) ∧
+    (rowRun fo r hist g lp {} calls).2.lls =
+        (if r.fitnessClass = .plain ∧ r.storeHistory hist = true then (calls.filter (succeeded g)).map llOf else []) := by
+  cases hc : r.fitnessClass with
+  | plain =>
+    rw [rowRun_plain fo r hist g lp hc]
+    have h := history_exact fo (rowCfg r hist) g lp calls {}
+    rw [h.1, h.2]
+    cases hs : r.storeHistory hist <;> simp [rowCfg, hs]
+  | pyswarms =>
+    rw [rowRun_pyswarms_state fo r hist g lp hc]
+    simp
+
+/-- the driver's lookup answers with a row of the table that carries the asked name -/
+theorem findRow_mem (rows : List SearchRow) (name : String) (r : SearchRow) (h : findRow rows name = some r) :
+    r ∈ rows ∧ r.name = name := by
+  unfold findRow at h
+  exact ⟨List.mem_of_find?_eq_some h, by simpa using List.find?_some h⟩
+
+/-- **Designated resample value, every search class of the source tree.** What a search receives
+for a vector that cannot be evaluated is `≥ 1e99` when it minimises and `≤ -1e99` when it maximises
+(so never better than an evaluated vector), nested samplers work in likelihood space, MCMC and
+maximum-likelihood searches in posterior space, and the flags given to the swarm variant say what it
+does. Checked by evaluation of the regenerated table: a search whose flags change changes this
+obligation. -/
+theorem table_designated : ∀ r ∈ Generated.C04.searchRows, rowDesignated floatFom r = true := by
+  decide +kernel
+
+/-- the defaults of `Fitness.__init__` are themselves a designated combination (likelihood space,
+maximised, `-inf` on failure) -/
+theorem table_defaults_designated : rowDesignated floatFom Generated.C04.defaultRow = true := by
+  decide +kernel
+
+/-- **The property's sentence for every search class of the source tree.** -/
+theorem table_contract (r : SearchRow) (hr : r ∈ Generated.C04.searchRows) (hist : Bool) (g) (lp)
+    (st : FitSt Float) (v : List Float) (o : Outcome Float) :
+    (∀ i ll, g v = .ok i → o = .fin ll →
+        (r.fitnessClass = .pyswarms → floatFom.isNaN (floatFom.mulNeg2 (floatFom.add ll (pySum floatFom (lp v)))) = false) →
+        (rowCall floatFom r hist g lp st v o).1 = .value (rowFom floatFom r ll (pySum floatFom (lp v)))) ∧
+    (((∃ e, g v = .error e ∧ e ≠ .length) ∨ (∃ i, g v = .ok i ∧ (o = .nan ∨ o = .raisesFit))) →
+        rowCall floatFom r hist g lp st v o = (.value (rowResample floatFom r), st)) ∧
+    rowResampleWorst floatFom r = true := by
+  refine ⟨?_, ?_, ?_⟩
+  · intro i ll hg ho hn
+    subst ho
+    exact row_fom_on_success floatFom r hist g lp st v i ll hg hn
+  · exact row_resample_on_failure floatFom r hist g lp st v o
+  · have h := table_designated r hr
+    simp only [rowDesignated, Bool.and_eq_true] at h
+    exact h.1.1
+
+/-! ### non-vacuity -/
+
+example : Generated.C04.searchRows.length > 0 := by decide
+
+/-- seeded change C04-m10: the swarm search given `+inf`, which its fitness class multiplies by −2 -/
+def swarmPlusInfRow : SearchRow :=
+  { name := "PySwarmsGlobal", family := .mle, owner := "AbstractPySwarms", fitnessClass := .pyswarms,
+    fomIsLL := false, convertChi := true, history := .off,
+    resampleBits := 0x7ff0000000000000, passesPaths := false }
+/-- an MCMC search switched to likelihood space -/
+def mcmcLikelihoodRow : SearchRow :=
+  { name := "Emcee", family := .mcmc, owner := "Emcee", fitnessClass := .plain,
+    fomIsLL := true, convertChi := false, history := .off,
+    resampleBits := 0xfff0000000000000, passesPaths := true }
+def lbfgsRow : SearchRow :=
+  { name := "LBFGS", family := .mle, owner := "AbstractBFGS", fitnessClass := .plain,
+    fomIsLL := false, convertChi := true, history := .dynamic,
+    resampleBits := 0x7ff0000000000000, passesPaths := true }
+def gLen1 : List Float → Except GateErr (Inst Float) :=
+  fun v => if v.length = 1 then .ok (.tup []) else .error .priorLimit
+
+example : rowDesignated floatFom swarmPlusInfRow = false := by decide +kernel
+example : rowDesignated floatFom mcmcLikelihoodRow = false := by decide +kernel
+/-- a minimiser of `-2 × posterior` with a dynamic history argument that is on: the history keeps the
+one successful call of three, the value is `-2 × (2 + 1.5)` -/
+example :
+    (rowRun floatFom lbfgsRow true gLen1 (fun _ => [1.5]) {}
+      [([0.5], .fin 2.0), ([0.5, 0.5], .fin 1.0), ([0.25], .nan)]).2.lls.map Float.toBits = [(2.0 : Float).toBits] := by
+  decide +kernel
+example :
+    (match (rowCall floatFom lbfgsRow true gLen1 (fun _ => [1.5]) {} [0.5] (.fin 2.0)).1 with
+      | .value x => x.toBits == (-7.0 : Float).toBits
+      | .raises => false) = true := by
+  decide +kernel
+
+end AF.C04
+
+
+/-! ## the log-prior terms are computed, not supplied
+
+`logPriorList` (`AFModel/LogPrior.lean`) is what the driver executes for `lp`: parameter order from
+the composition tree (`uniqueIds`, the order C01 proves for `model.paths`), one expression per prior
+family. The theorems above hold for every `lp`; here `lp` is the model's. -/
+
+namespace AF.C04
+open AF AF.LogPriorLemmas
+
+/-- one term per parameter (Python's `map` stops at the shorter of priors and vector) -/
+theorem logPriorList_length (lo : LpOps V) (tbl : List (Nat × PriorD V)) (t : Node V) (v : List V) :
+    (logPriorList lo tbl t v).length = min (count t) v.length := by
+  simp [logPriorList, argsOfVector_length]
+
+/-- **Parameter order.** the k-th term is `log_prior_from_value` of the prior whose id is k-th in
+parameter order, applied to the k-th entry of the vector -/
+theorem logPriorList_term (lo : LpOps V) (tbl : List (Nat × PriorD V)) (t : Node V) (v : List V) (k : Nat)
+    (id : Nat) (x : V) (hid : (uniqueIds t)[k]? = some id) (hx : v[k]? = some x) :
+    (logPriorList lo tbl t v)[k]? = some (logPriorOf lo (descOf lo tbl id) x) := by
+  simp [logPriorList, argsOfVector_getElem?, hid, hx]
+
+/-- the families, with the expressions of the code -/
+theorem logPrior_families (lo : LpOps V) (mean sigma x : V) :
+    logPriorOf lo ⟨.uniform, mean, sigma⟩ x = lo.zero ∧
+    logPriorOf lo ⟨.logUniform, mean, sigma⟩ x = lo.div lo.one x ∧
+    logPriorOf lo ⟨.gaussian, mean, sigma⟩ x = lo.div (lo.sq (lo.sub x mean)) (lo.mul lo.two (lo.sq sigma)) ∧
+    (lo.le0 x = true → logPriorOf lo ⟨.logGaussian, mean, sigma⟩ x = lo.negInf) ∧
+    (lo.le0 x = false → logPriorOf lo ⟨.logGaussian, mean, sigma⟩ x =
+      lo.sub (lo.div (lo.sq (lo.sub (lo.log x) mean)) (lo.mul lo.two (lo.sq sigma))) (lo.log x)) := by
+  refine ⟨rfl, rfl, rfl, ?_, ?_⟩ <;> intro h <;> simp [logPriorOf, normalTerm, h]
+
+/-- **Posterior = likelihood + the model's terms, summed left to right in parameter order**, times −2
+in chi-squared mode; nothing is added in likelihood mode. `lp` is no longer a parameter. -/
+theorem posterior_sum_in_parameter_order (fo : FomOps V) (lo : LpOps V) (cfg : FitCfg V) (g)
+    (tbl : List (Nat × PriorD V)) (t : Node V) (st : FitSt V) (v : List V) (i : Inst V) (ll : V) (hg : g v = .ok i) :
+    (fitnessCall fo cfg g (logPriorList lo tbl t) st v (.fin ll)).1 =
+      .value (let post := fo.add ll (((uniqueIds t).zip v).foldl
+                  (fun acc a => fo.add acc (logPriorOf lo (descOf lo tbl a.1) a.2)) fo.zero)
+              let fom := if cfg.fomIsLL then ll else post
+              if cfg.convertChi then fo.mulNeg2 fom else fom) := by
+  rw [fom_on_success fo cfg g _ st v i ll hg]
+  simp only [pySum, logPriorList, foldl_map_add, argsOfVector]
+
+/-- with the model's own gate (C03) and the model's own terms: the complete sentence for a vector of
+the right length -/
+theorem fom_of_model (ops : Ops V) [Inhabited V] (fo : FomOps V) (lo : LpOps V) (cfg : FitCfg V)
+    (t : Node V) (lims : List (V × V)) (asserts : List (Asrt V)) (tbl : List (Nat × PriorD V))
+    (st : FitSt V) (v : List V) (ll : V) (hl : v.length = count t) :
+    (fitnessCall fo cfg (fun v => gate ops t lims asserts v false) (logPriorList lo tbl t) st v (.fin ll)).1 =
+      if limitsOk ops lims v = true ∧ (∀ a ∈ asserts, evalA ops (valOf (argsOfVector t v)) a = true) then
+        .value (let fom := if cfg.fomIsLL then ll else fo.add ll (logPriorSum fo lo tbl t v)
+                if cfg.convertChi then fo.mulNeg2 fom else fom)
+      else .value cfg.resample :=
+  fom_with_model_gate ops fo cfg t lims asserts (logPriorList lo tbl t) st v ll hl
+
+/-- a model whose priors are all uniform: every term is `0.0` -/
+theorem uniform_terms_zero (lo : LpOps V) (tbl : List (Nat × PriorD V)) (t : Node V) (v : List V)
+    (hu : ∀ id ∈ uniqueIds t, (descOf lo tbl id).kind = .uniform) :
+    ∀ x ∈ logPriorList lo tbl t v, x = lo.zero := by
+  intro x hx
+  simp only [logPriorList, List.mem_map] at hx
+  obtain ⟨a, ha, rfl⟩ := hx
+  have hid : a.1 ∈ uniqueIds t := by
+    have := List.of_mem_zip (show (a.1, a.2) ∈ (uniqueIds t).zip v from ha)
+    exact this.1
+  simp [logPriorOf, hu a.1 hid]
+
+/-- ... so the posterior of an all-uniform model is `ll + 0.0` (whenever `0.0 + 0.0 = 0.0`) -/
+theorem uniform_sum_zero (fo : FomOps V) (lo : LpOps V) (tbl : List (Nat × PriorD V)) (t : Node V) (v : List V)
+    (hz : fo.add fo.zero lo.zero = fo.zero)
+    (hu : ∀ id ∈ uniqueIds t, (descOf lo tbl id).kind = .uniform) :
+    logPriorSum fo lo tbl t v = fo.zero := by
+  have h := uniform_terms_zero lo tbl t v hu
+  unfold logPriorSum pySum
+  generalize logPriorList lo tbl t v = l at h
+  induction l with
+  | nil => rfl
+  | cons x xs ih =>
+    have hx : x = lo.zero := h x (List.mem_cons_self ..)
+    simp only [List.foldl_cons, hx, hz]
+    exact ih (fun y hy => h y (List.mem_cons_of_mem _ hy))
+
+/-! ### non-vacuity: exact rationals; two priors whose ids are *not* in the order of the walk -/
+
+def ratLp : LpOps Rat where
+  zero := 0
+  one := 1
+  two := 2
+  negInf := -1000000
+  nan := -999
+  sub := (· - ·)
+  mul := (· * ·)
+  div := (· / ·)
+  sq := fun x => x * x
+  log := fun x => x - 1
+  le0 := fun x => decide (x ≤ 0)
+
+def ratFom : FomOps Rat := { add := (· + ·), mulNeg2 := (· * -2), zero := 0, isNaN := fun _ => false }
+
+/-- `Model(P2, a = prior 7 (log-uniform), b = prior 3 (gaussian mean 1 sigma 2))`: the walk meets 7 first,
+the parameter order is 3, 7 -/
+def t₂ : Node Rat := .model "P2" ["a", "b"] [("a", .prior 7), ("b", .prior 3)]
+def tbl₂ : List (Nat × PriorD Rat) := [(7, ⟨.logUniform, 0, 1⟩), (3, ⟨.gaussian, 1, 2⟩)]
+
+example : uniqueIds t₂ = [3, 7] := by decide
+/-- vector `[5, 1/4]`: the gaussian term belongs to the first entry, `(5-1)²/(2·2²) = 2`, the
+log-uniform one to the second, `1/(1/4) = 4` -/
+example : logPriorList ratLp tbl₂ t₂ [5, 1/4] = [2, 4] := by decide +kernel
+example : (match (fitnessCall ratFom { fomIsLL := false, convertChi := true, storeHistory := false, resample := -1 }
+    (fun _ => .ok (.tup [])) (logPriorList ratLp tbl₂ t₂) {} [5, 1/4] (.fin 10)).1 with
+    | .value x => x | .raises => 0) = -32 := by decide +kernel
+/-- a shorter vector: one term -/
+example : logPriorList ratLp tbl₂ t₂ [5] = [2] := by decide +kernel
+
+end AF.C04
+
+
+/-! ## `check_log_likelihood` on resume -/
+
+namespace AF.C04
+open AF
+
+/-- **The check raises exactly when the stored and the recomputed likelihood are not close**: it is
+switched on (no test mode, configuration on), a stored sample exists, the model accepts its
+parameters, and the likelihood now returns NaN or a number `np.isclose` rejects. -/
+theorem check_raises_iff (co : CloseOps V) (testMode cfgOn : Bool) (s : Stored V) (g) (o : Outcome V) :
+    checkLL co testMode cfgOn s g o = .searchException ↔
+      testMode = false ∧ cfgOn = true ∧ ∃ llOld params i, s = .sample llOld params ∧ g params = .ok i ∧
+        (o = .nan ∨ ∃ llNew, o = .fin llNew ∧ isClose co llOld llNew = false) := by
+  unfold checkLL
+  cases testMode <;> cases cfgOn <;> simp
+  cases s with
+  | noSummary => simp
+  | noSample => simp
+  | sample llOld params =>
+    cases hg : g params with
+    | error e => simp [hg]
+    | ok i =>
+      cases o with
+      | fin llNew =>
+        by_cases hc : isClose co llOld llNew = true
+        · simp [hg, hc]
+        · simp [hg, hc]
+          exact ⟨llOld, params, ⟨rfl, rfl⟩, ⟨i, hg⟩, by simpa using hc⟩
+      | nan =>
+        simp [hg]
+        exact ⟨llOld, params, ⟨rfl, rfl⟩, i, hg⟩
+      | raisesFit => simp [hg]
+      | raisesOther => simp [hg]
+
+/-- the check is silent when it is switched off or there is nothing to resume from -/
+theorem check_passes_when_off (co : CloseOps V) (testMode cfgOn : Bool) (s : Stored V) (g) (o : Outcome V)
+    (h : testMode = true ∨ cfgOn = false ∨ s = .noSummary ∨ s = .noSample) :
+    checkLL co testMode cfgOn s g o = .passes := by
+  unfold checkLL
+  rcases h with h | h | h | h
+  · subst h; simp
+  · subst h; cases testMode <;> simp
+  · subst h; cases testMode <;> cases cfgOn <;> simp
+  · subst h; cases testMode <;> cases cfgOn <;> simp
+
+/-- what else can leave the constructor: the model rejecting the stored vector, the likelihood raising -/
+theorem check_escapes_iff (co : CloseOps V) (testMode cfgOn : Bool) (s : Stored V) (g) (o : Outcome V) :
+    checkLL co testMode cfgOn s g o = .escapes ↔
+      testMode = false ∧ cfgOn = true ∧ ∃ llOld params, s = .sample llOld params ∧
+        ((∃ e, g params = .error e) ∨ ((∃ i, g params = .ok i) ∧ (o = .raisesFit ∨ o = .raisesOther))) := by
+  unfold checkLL
+  cases testMode <;> cases cfgOn <;> simp
+  cases s with
+  | noSummary => simp
+  | noSample => simp
+  | sample llOld params =>
+    cases hg : g params with
+    | error e =>
+      simp [hg]
+      exact ⟨llOld, params, ⟨rfl, rfl⟩, Or.inl ⟨e, hg⟩⟩
+    | ok i =>
+      cases o with
+      | fin llNew => by_cases hc : isClose co llOld llNew = true <;> simp [hg, hc]
+      | nan => simp [hg]
+      | raisesFit =>
+        simp [hg]
+        exact ⟨llOld, params, ⟨rfl, rfl⟩, Or.inr ⟨i, hg⟩⟩
+      | raisesOther =>
+        simp [hg]
+        exact ⟨llOld, params, ⟨rfl, rfl⟩, Or.inr ⟨i, hg⟩⟩
+
+/-- **The check never alters a figure of merit** (nor a history): an object built with `paths`
+either is not built, or answers every sequence of calls exactly as an object built without. -/
+theorem resume_never_alters (fo : FomOps V) (co : CloseOps V) (cfg : FitCfg V) (g) (lp)
+    (paths : Option (Bool × Bool × Stored V × Outcome V)) (calls : List (List V × Outcome V)) (r) :
+    constructAndRun fo co cfg g lp paths calls = .ok r →
+      constructAndRun fo co cfg g lp none calls = .ok r := by
+  intro h
+  unfold constructAndRun at h ⊢
+  cases paths with
+  | none => exact h
+  | some p =>
+    obtain ⟨tm, on, s, o⟩ := p
+    simp only at h
+    cases hc : checkLL co tm on s g o <;> simp [hc] at h
+    simp [h]
+
+/-- ... and it is built exactly when the check passes -/
+theorem resume_built_iff (fo : FomOps V) (co : CloseOps V) (cfg : FitCfg V) (g) (lp)
+    (tm on : Bool) (s : Stored V) (o : Outcome V) (calls : List (List V × Outcome V)) :
+    (∃ r, constructAndRun fo co cfg g lp (some (tm, on, s, o)) calls = .ok r) ↔ checkLL co tm on s g o = .passes := by
+  unfold constructAndRun
+  constructor
+  · rintro ⟨r, hr⟩
+    cases hc : checkLL co tm on s g o <;> simp [hc] at hr
+    rfl
+  · intro hc
+    exact ⟨runCalls fo cfg g lp {} calls, by simp [hc]⟩
+
+/-- `np.isclose` on finite numbers is the stated inequality; equal infinities are close -/
+theorem isClose_finite (co : CloseOps V) (a b : V) (ha : co.isFinite a = true) (hb : co.isFinite b = true) :
+    isClose co a b = co.le (co.abs (co.sub a b)) (co.add co.atol (co.mul co.rtol (co.abs b))) := by
+  simp [isClose, ha, hb]
+
+/-! ### non-vacuity (Float, evaluated by the kernel) -/
+
+/-- stored −100.0, recomputed −100.0005: within `1e-8 + 1e-5·100.0005`; recomputed −100.002: not -/
+example : isClose floatClose (-100.0) (-100.0005) = true ∧ isClose floatClose (-100.0) (-100.002) = false := by
+  decide +kernel
+example : checkLL floatClose false true (.sample (-100.0) [0.5]) gLen1 (.fin (-100.002)) = .searchException := by
+  decide +kernel
+example : checkLL floatClose false true (.sample (-100.0) [0.5]) gLen1 (.fin (-100.0005)) = .passes := by
+  decide +kernel
+example : checkLL floatClose false true (.sample (-100.0) [0.5, 0.5]) gLen1 (.fin (-100.0)) = .escapes := by
+  decide +kernel
+example : checkLL floatClose true true (.sample (-100.0) [0.5]) gLen1 (.fin 3.0) = .passes := by
+  decide +kernel
 
 end AF.C04
